@@ -773,61 +773,17 @@ def make_pool(n: int):
 # ------------------------------------------------------------------------------------- judging
 CFG_ENUM = """SPECIFICATION Spec
 CONSTANTS Source = "enum"
-          DeprecateQuoting = "{quoting}"
-          ObjectAlt = "{objectalt}"
 CONSTRAINT EmitEnum
-INVARIANT {raw}
-INVARIANT {rst}
-INVARIANT {sink}
+INVARIANT NeverParsedRaw
+INVARIANT SinkLevelOne
 INVARIANT WellTyped
 INVARIANT SameAsWalk
 """
 CFG_FILE = """SPECIFICATION Spec
 CONSTANTS Source = "file"
-          DeprecateQuoting = "{quoting}"
-          ObjectAlt = "{objectalt}"
 CONSTRAINT EmitFile
 """
-KF_DEPRECATE = "deprecate-replacement-reparsed-as-rst"
-KF_OBJECT_ALT = "object-alt-copied-raw"
-# for `imagealt` only these payloads are compared with the model (raw copied markup turns into elements or XML errors)
-MODELLED_IMAGEALT = ("entities", "xmlbreak")
-
-
-def kf_object_alt_raw(w: Dict[str, Any]) -> bool:
-    """Known finding: the :alt: text of an image that docutils shows as <object> (.svg .swf .mp4 .webm .ogg) is copied
-    into the HTML unescaped (html4css1.visit_image) and then parsed by html2stan.  Matches ONLY violations of the source
-    kind `imagealt` for which html2stan was observed on level-0 text (a ParseXml event with level in 0)."""
-    if w.get("kind") != "imagealt" or w.get("invariant") not in ("SkeletonEqual", "SinkLevelOne", "CanaryAppears", "SinkLevelOne(TLC)"):
-        return False
-    if any(e[0] == "ParseXml" and e[1] == 0 for e in w.get("events", [])):
-        return True
-    # the canary was cut in pieces by the docstring parser (no level): the new elements sit inside the <object>
-    where = w.get("where") or {}
-    if w.get("invariant") != "SkeletonEqual":
-        return False
-    if any("object[" in x for x in where.get("with_canary", [])):
-        return True
-    # ... or, copied raw, they are not XML: html2stan raised for the canary only, its twin shows the <object>
-    return any(e[0] == "ParseXml" and e[2] == -3 for e in w.get("events", [])) \
-        and any("object[" in x for x in where.get("with_placeholder", []))
-
-
 MODELLED_LINESEP = ("cr", "fs", "gs", "rs", "nel", "ls", "ps")     # vt / ff additionally make html2stan raise
-
-
-def kf_deprecate_reparsed(w: Dict[str, Any]) -> bool:
-    """Known finding: extensions/deprecate.py pastes a non-identifier replacement= string into reST source after
-    replacing only "\\n"; behind any other line separator docutils reads reST structure (a raw directive copies HTML
-    into the page), and a double backtick ends the literal (an embedded-URI reference becomes a link).  Matches ONLY
-    violations of the `deprecated` source kind whose payload holds such a separator followed by a directive, or a
-    backtick, and whose skeleton difference is on the pages showing the deprecation box."""
-    if w.get("kind") != "deprecated" or w.get("invariant") not in ("SkeletonEqual", "CanaryAppears"):
-        return False
-    p = w.get("payload", "")
-    via_sep = any(c + ".. " in p for c in LINE_SEPARATORS.values())
-    via_backtick = "``" in p
-    return via_sep or via_backtick
 
 
 RANDOM_TOKENS = ["<", ">", "&", "\"", "'", "&lt;", "&amp;", "&#60;", "&#x3c;", "&quot;", "]]>", "-->", "<!--", "<![CDATA[",
@@ -904,18 +860,12 @@ def jobs_for(scratch: Path, kind: str, variant: str, payload: str) -> Tuple[Dict
 def run(ctx: Ctx) -> int:
     rng = random.Random(ctx.seed)
     # ---- spec -> code: every (kind, sink) pair of Escape.tla
-    ctx.register_matcher(KF_DEPRECATE, kf_deprecate_reparsed)
-
-    ctx.register_matcher(KF_OBJECT_ALT, kf_object_alt_raw)
-
-    def enumerate_model(mv: Tuple[str, str], count: bool = True):
-        rr = ctx.tlc("Escape", CFG_ENUM.format(quoting=mv[0], objectalt=mv[1], raw="NeverParsedRawExceptKnown",
-                                               rst="NeverReparsedAsMarkupExceptKnown", sink="SinkLevelOneExceptKnown"),
-                     workers=4, check=True, coverage=ctx.quick and count, timeout=600, count=count)
+    def enumerate_model(count: bool = True):
+        rr = ctx.tlc("Escape", CFG_ENUM, workers=4, check=True, coverage=ctx.quick and count, timeout=600, count=count)
         if not rr.printed:
             raise MachineryError("Escape.tla printed no (kind, sink) pair")
         if rr.violated:
-            raise MachineryError(f"Escape.tla violates its invariants outside the known finding: {rr.violated}")
+            raise MachineryError(f"Escape.tla violates its own invariants: {rr.violated}")
         mdl: Dict[Tuple[str, str], Dict[str, Any]] = {}
         for pr in rr.printed:
             m = mdl.setdefault((pr["kind"], pr["cls"]), {"sinks": set(), "steps": set(), "pairs": []})
@@ -925,18 +875,14 @@ def run(ctx: Ctx) -> int:
             m["pairs"].append(pr)
         return rr, mdl
 
-    # the transcription variants of the two known-finding sites; the first is the code as it is, the check uses the
-    # one the observations conform to
-    model_variants = [("all_separators", "raw"), ("all_separators", "encoded"), ("newline_only", "raw"), ("newline_only", "encoded")]
-    mv = model_variants[0]
-    r, model = enumerate_model(mv)
+    r, model = enumerate_model()
     pairs = r.printed
     ctx.exhaustive = True
     unknown = sorted({k for k, _ in model} - set(KINDS))
     if unknown:
         raise MachineryError(f"Escape.tla enumerates source kinds the harness cannot plant: {unknown}")
     kinds = [k for k in KINDS if (k, "plain") in model]
-    plan: List[Tuple[str, str, str, bool]] = [(k, v, p, k != "imagealt" or v in MODELLED_IMAGEALT) for k in kinds for v, p in VARIANTS.items()]
+    plan: List[Tuple[str, str, str, bool]] = [(k, v, p, True) for k in kinds for v, p in VARIANTS.items()]
     plan += [(k, v, p, False) for k in kinds for v, p in UNMODELLED_VARIANTS.items()]
     if "deprecated" in kinds:
         plan += [("deprecated", f"linesep-{n}", linesep_payload(c), n in MODELLED_LINESEP) for n, c in LINE_SEPARATORS.items()]
@@ -1018,19 +964,8 @@ def run(ctx: Ctx) -> int:
                         "steps_not_in_model": sorted(obs_e - m["steps"], key=str), "model_steps_not_seen": sorted(m["steps"] - obs_e, key=str)})
         return out
 
-    ndrift = lambda ds: sum(1 for d in ds if d and any(d.values()))
     twin = conform(model)
-    if ndrift(twin):
-        for alt_mv in model_variants[1:]:
-            r_alt, model_alt = enumerate_model(alt_mv, count=False)
-            twin_alt = conform(model_alt)
-            if ndrift(twin_alt) < ndrift(twin):
-                mv, model, twin, pairs = alt_mv, model_alt, twin_alt, r_alt.printed
-    ctx.extra["model_variant_followed_by_code"] = {"DeprecateQuoting": mv[0], "ObjectAlt": mv[1]}
-    # design level: the strict invariants on the model of the code as it is (never a verdict by itself)
-    strict = ctx.tlc("Escape", CFG_ENUM.format(quoting=mv[0], objectalt=mv[1], raw="NeverParsedRaw", rst="NeverReparsedAsMarkup",
-                                               sink="SinkLevelOne"), workers=1, timeout=600, count=False, extra=["-continue"])
-    ctx.extra["design_level_invariants_violated"] = sorted(set(strict.violated))
+    ctx.extra["design_level_invariants_violated"] = list(r.violated)
     for d, o in zip(twin, observed_records):
         if o is None:
             continue
@@ -1054,7 +989,7 @@ def run(ctx: Ctx) -> int:
     twin = [twin[i] for i in keep]
     f = ctx.scratch / "observed.json"
     f.write_text(json.dumps(observed_records))
-    r2 = ctx.tlc("Escape", CFG_FILE.format(quoting=mv[0], objectalt=mv[1]), workers=1, env={"C10_OBSERVED": str(f)}, check=True, timeout=600)
+    r2 = ctx.tlc("Escape", CFG_FILE, workers=1, env={"C10_OBSERVED": str(f)}, check=True, timeout=600)
     got = {x["n"]: x for x in r2.printed}
     if len(got) != len(observed_records):
         raise MachineryError(f"TLC judged {len(got)} of {len(observed_records)} observed flows")
@@ -1086,7 +1021,7 @@ def run(ctx: Ctx) -> int:
     broken[0]["sinks"][0][3] = 2
     broken[0]["events"].append(["ParseXml", 0, 0])
     f.write_text(json.dumps(broken))
-    r3 = ctx.tlc("Escape", CFG_FILE.format(quoting=mv[0], objectalt=mv[1]), workers=1, env={"C10_OBSERVED": str(f)}, check=True, count=False)
+    r3 = ctx.tlc("Escape", CFG_FILE, workers=1, env={"C10_OBSERVED": str(f)}, check=True, count=False)
     nc["tlc_rejects_corrupted_observation"] = (not r3.printed[0]["sinkLevelOne"]) and (not r3.printed[0]["neverParsedRaw"]) \
         and bool(r3.printed[0]["stepsNotInModel"])
     # a page in which the canary is written raw must be caught by the crawler (skeleton / well-formedness)
